@@ -26,6 +26,22 @@ Theorem specificity_correct :
 Proof. exact specificity_correct_lemma. Qed.
 Print Assumptions specificity_correct.
 
+(* re-assignment: whatever was assigned before (without an uncaught exception), after assigning a Declared selector
+   and then any number of REJECTED texts the object still reports the specificity of the selector it holds *)
+Theorem rejected_assignment_keeps_specificity :
+  forall ns h0 before sel rej,
+    Declared ns sel ->
+    Forall (fun g => run ns g = Some Rejected) rej ->
+    forall h1, assigns_glued ns h0 before = Some h1 ->
+    exists seq, assigns_glued ns h0 (before ++ prepass (render sel) :: rej) = Some (mkHeld (sp_selector sel) seq).
+Proof. exact held_specificity_lemma. Qed.
+Print Assumptions rejected_assignment_keeps_specificity.
+Example rejected_assignment_nonvacuous :     (* a#m.n  then  `#p #q #r >`  (rejected): still (1,1,1) *)
+  option_map h_spec (assigns0 [] [[(s "IDENT", s "a"); (s "HASH", s "#m"); (s "CHAR", s "."); (s "IDENT", s "n")];
+                                  [(s "HASH", s "#p"); (s "S", s " "); (s "HASH", s "#q"); (s "S", s " "); (s "HASH", s "#r");
+                                   (s "S", s " "); (s "CHAR", s ">")]]) = Some (1, 1, 1)%nat.
+Proof. vm_compute. reflexivity. Qed.
+
 (* non-vacuity:  ` p|a#i.c[q|x ~= "v"]:hover:not( :lang(en) ) /**/ > *::first-line `  is Declared, and evaluates *)
 Definition ex_ns : ns_map := [(s "p", s "u:p"); (s "q", s "u:q")].
 Definition ex_sel : selector :=
